@@ -110,6 +110,21 @@ FAULTS = [
      "            atomname = molecule.nodes[node]['element'] + str(idx)", "            atomname = molecule.nodes[node]['element'] + str(idx + 1)", 'names start at 1'),
     ('cgsmiles.graph_utils:merge_graphs', 'cgsmiles/graph_utils.py',
      "        if correspondence[node1] != correspondence[node2]:", "        if correspondence[node1] < correspondence[node2]:", 'half of the template bonds dropped'),
+    ('cgsmiles.pysmiles_utils:compute_mass', 'cgsmiles/pysmiles_utils.py',
+     "    molecule = input_molecule.copy()", "    molecule = input_molecule", 'hydrogens completed on the template itself (lost copy)'),
+    ('cgsmiles.sample:MoleculeSampler.__init__', 'cgsmiles/sample.py',
+     "                for bonding in bondings:\n                    self.fragments_by_bonding[bonding].append((fragname, node))",
+     "                for bonding in bondings[:1]:\n                    self.fragments_by_bonding[bonding].append((fragname, node))",
+     'only the first descriptor of a template atom enters the partner table'),
+    ('cgsmiles.sample:MoleculeSampler.__init__', 'cgsmiles/sample.py',
+     "        if fragment_masses:\n            guess_mass_from_PTE = False", "        if fragment_masses is not None:\n            guess_mass_from_PTE = False",
+     'an empty mass table is accepted (no masses at all)'),
+    ('cgsmiles.graph_utils:annotate_fragments', 'cgsmiles/graph_utils.py',
+     "        combinations = itertools.combinations(fragid_to_node[meta_node], r=2)", "        combinations = itertools.combinations(fragid_to_node[meta_node][1:], r=2)",
+     'bonds of the first atom of a fragment are missing in its fragment graph'),
+    ('cgsmiles.graph_utils:annotate_fragments', 'cgsmiles/graph_utils.py',
+     "        for fragid in fragids:\n            fragid_to_node[fragid].append(node)", "        for fragid in fragids[:1]:\n            fragid_to_node[fragid].append(node)",
+     'a shared atom is listed under its first coarse node only'),
 ]
 
 
